@@ -115,7 +115,26 @@ func (*c20) Impl(c Case) []string {
 	return out
 }
 
+// c20Line calls the method twice: with distinguishable arguments (to check their order) and
+// with boundary values (zero offsets, -1, empty strings): which function is called, or which
+// refusal is returned, must not depend on the argument values.
 func c20Line(l string) string {
+	a := c20Call(l, false)
+	b := c20Call(l, true)
+	kind := func(s string) string {
+		f := strings.Split(s, " ")
+		if len(f) >= 2 && (f[0] == "delegated" || f[0] == "unset") {
+			return f[0] + " " + f[1]
+		}
+		return s
+	}
+	if kind(a) != kind(b) {
+		return "argument-dependent[" + kind(a) + " | " + kind(b) + "]"
+	}
+	return a
+}
+
+func c20Call(l string, boundary bool) string {
 	t := strings.Split(l, " ")
 	if len(t) != 5 || t[0] != "funcs" {
 		return "bad-op"
@@ -160,7 +179,11 @@ func c20Line(l string) string {
 	mt := m.Type()
 	args := []reflect.Value{reflect.ValueOf(context.Background())}
 	for i := 1; i < mt.NumIn(); i++ {
-		args = append(args, c20Arg(mt.In(i), i-1))
+		if boundary {
+			args = append(args, c20BoundaryArg(mt.In(i), i-1))
+		} else {
+			args = append(args, c20Arg(mt.In(i), i-1))
+		}
 	}
 	res := m.Call(args)
 	if len(rec) > 1 {
@@ -268,6 +291,17 @@ func c20Arg(t reflect.Type, i int) reflect.Value {
 		panic("c20: unhandled parameter type " + t.String())
 	}
 	return v
+}
+
+func c20BoundaryArg(t reflect.Type, i int) reflect.Value {
+	v := reflect.New(t).Elem()
+	switch {
+	case t.Kind() == reflect.Int64 || t.Kind() == reflect.Int:
+		v.SetInt(int64(-(i % 2))) // 0, -1, 0, -1 …
+	case t.Kind() == reflect.Interface:
+		return c20Arg(t, i)
+	}
+	return v // zero value: "", Descriptor{}, nil slice
 }
 
 // c20Results builds distinguishable results for a stub of type ft.
